@@ -457,6 +457,27 @@ func TestVerifC11(t *testing.T) {
 			}
 			r.Eval(fmt.Sprintf("kernel|copyAsm|len%%8=%d", n%8))
 		}
+		// copyAsm at EVERY alignment of source and destination and every short length, inside larger buffers whose
+		// surroundings are canaries (the page-edge placements above fix the alignment to the length)
+		for sa := 0; sa < 16 && asmDirectAvailable; sa++ {
+			for da := 0; da < 16; da += 1 + sa%3 {
+				for n := 0; n <= 40; n++ {
+					sbuf, dbuf := rng.Bytes(96), bytes.Repeat([]byte{0xC7}, 96)
+					so, do := 16+sa, 16+da
+					var dummyS, dummyD byte
+					sp, dp := &dummyS, &dummyD
+					if n > 0 {
+						sp, dp = &sbuf[so], &dbuf[do]
+					}
+					p, msg, _, _ := hk.Try(func() { vCopyAsm(dp, sp, n) })
+					ok := !p && bytes.Equal(dbuf[do:do+n], sbuf[so:so+n]) && bytes.Equal(dbuf[:do], bytes.Repeat([]byte{0xC7}, do)) && bytes.Equal(dbuf[do+n:], bytes.Repeat([]byte{0xC7}, 96-do-n)) && dummyD == 0
+					if !ok {
+						r.Violation("kernel-writes-outside-destination:copyAsm", hk.D{"len": n, "src_alignment": sa, "dst_alignment": da, "panic": msg, "dst_after": hk.Hex(dbuf)})
+					}
+				}
+			}
+			r.Eval(fmt.Sprintf("kernel|copyAsm|all-alignments|src%%16=%d", sa))
+		}
 		// sealAsm / openAsm with the 32-byte scratch block and round keys inside the object
 		directCases := []sc{{12, 0, 0, 16, true, hk.PlaceEnd}, {12, 20, 17, 16, true, hk.PlaceEnd}, {13, 1, 300, 16, true, hk.PlaceStart}, {12, 16, 256, 12, true, hk.PlaceEnd}, {130, 129, 1, 16, true, hk.PlaceEnd}, {12, 7, 513, 13, true, hk.PlaceStart}}
 		if !asmDirectAvailable {
